@@ -13,9 +13,12 @@ from vizier._src.service import vizier_client
 from vizier._src.service import vizier_service_pb2 as vs
 from vizier.service import pyvizier as vz
 
-ALPHABET = ['', 'a', 'b:', ':', '\\', 'a\\', 'é', 'a:b', 'x']
+ALPHABET = ['', 'a', 'b', 'b:', ':', '\\', 'a\\', 'é', 'a:b', 'x']
 BENIGN = ['', 'a', 'b', 'é', 'x']
-KEYS = ['k1', 'k2', '', 'ké', 'a:b']
+# Keys share the namespace alphabet (incl. the separator) so that a store keyed
+# on a concatenation of namespace and key would collide: ns ('a',) + key 'b:a'
+# versus ns ('a','b') + key 'a'.
+KEYS = ['k1', 'k2', '', 'a', 'b', 'b:a', 'a:b', ':a', 'ké', 'a\\']
 ALGO_ROOT = 'verif_algo'
 SEQ_NS = ('verif_seq',)
 
@@ -117,7 +120,7 @@ class C10(runner.Check):
         'algorithm': rng.choice(['SEQUENCE', 'SEQUENCE', 'SEQUENCE', 'GRID_SEARCH']),
         'space': rng.choice(['int10', 'mixed']), 'epoch': simclock.EPOCH + rng.randrange(10**6),
     }
-    alpha = ALPHABET if rng.random() < 0.6 else BENIGN
+    alpha = rng.choice([ALPHABET, ALPHABET, BENIGN, ['a', 'b'], ['a', 'b', 'a:b']])
     nss = [()]
     for _ in range(rng.choice([1, 2, 3, 4])):
       nss.append(tuple(rng.choice(alpha) for _ in range(rng.choice([1, 1, 2, 3]))))
@@ -131,7 +134,7 @@ class C10(runner.Check):
           tr = {'pref': rng.choice(prefs), 'i': rng.randrange(8)}
         r = rng.random()
         val = ['P', rng.randrange(50)] if r < 0.2 else (['S', ''] if r < 0.3 else ['S', str(rng.randrange(50))])
-        out.append({'trial': tr, 'ns': list(rng.choice(nss)), 'key': rng.choice(KEYS[:3] if rng.random() < 0.8 else KEYS), 'value': val})
+        out.append({'trial': tr, 'ns': list(rng.choice(nss)), 'key': rng.choice(KEYS[:3] if rng.random() < 0.5 else KEYS), 'value': val})
       return out
 
     ss = {'o': 0, 'd': 0}
